@@ -92,6 +92,10 @@ let parse_cmode (s : string) : cmode =
      bin:<op>:<a>:<b>:<mode>[:api]        bins:<op>:<t>:<scalar>:<left|right>:<mode>[:api]
      cmp:<op>:<a>:<b>:<bool|same>:<mode>  cmps:<op>:<t>:<scalar>:<left|right>:<bool|same>:<mode>
      un:<op>:<a>:<mode> *)
+let refusal (impl_step : string) : int =
+  if String.length impl_step >= 5 && String.sub impl_step 0 5 = "panic" then 2
+  else if String.length impl_step >= 3 && String.sub impl_step 0 3 = "err" then 1 else 0
+
 let parse_op (o : string) (impl_step : string) : zop =
   let f = fields o in
   let nat i = nat_of_int (int_of_string f.(i)) in
@@ -105,6 +109,14 @@ let parse_op (o : string) (impl_step : string) : zop =
   | "reduce" ->
     let code = (match f.(1) with "sum" -> 0 | "min" -> 1 | "max" -> 2 | o -> failwith o) in
     ZReduce (z_of_int code, nat 2, zs f.(3), (String.length impl_step >= 3 && String.sub impl_step 0 3 = "err"))
+  | "lin" ->
+    let code = (match f.(1) with "matmul" -> 0 | "matvec" -> 1 | "outer" -> 2 | o -> failwith o) in
+    let m = (match String.split_on_char '.' f.(4) with
+        | ["safe"] -> LSafe | ["reuse"; r] -> LReuse (nat_of_int (int_of_string r))
+        | ["incr"; r] -> LIncr (nat_of_int (int_of_string r)) | _ -> failwith "lmode") in
+    ZLin (z_of_int code, nat 2, nat 3, m, z_of_int (refusal impl_step))
+  | "inner" -> ZInner (nat 1, nat 2, z_of_int (refusal impl_step))
+  | "trace" -> ZTrace (nat 1, z_of_int (refusal impl_step))
   | "stack" -> ZStack (nat 1, z_of_int (int_of_string f.(2)), List.map (fun i -> nat_of_int i) (ints f.(3)))
   | "concat" -> ZConcat (nat 1, z_of_int (int_of_string f.(2)), List.map (fun i -> nat_of_int i) (ints f.(3)))
   | "repeat" -> ZRepeat (nat 1, z_of_int (int_of_string f.(2)), zs f.(3))
@@ -212,7 +224,9 @@ let operand_ids (o : string) : int list =
   | "bin" | "cmp" -> [int_of_string f.(2); int_of_string f.(3)]
   | "bins" | "cmps" | "un" | "reduce" | "arg" -> [int_of_string f.(2)]
   | "stack" | "concat" -> int_of_string f.(1) :: ints f.(3)
-  | "repeat" -> [int_of_string f.(1)]
+  | "repeat" | "trace" -> [int_of_string f.(1)]
+  | "lin" -> [int_of_string f.(2); int_of_string f.(3)]
+  | "inner" -> [int_of_string f.(1); int_of_string f.(2)]
   | _ -> (try [int_of_string f.(1)] with _ -> [])
 
 (* extension point: operand ids of operations added by other driver modules *)
@@ -246,6 +260,8 @@ let run_prog dt (prog : string) (impl : string) : outcome =
          | Some st ->
            (match zstep_spec st op with
             | None -> s := None; sout := "?" :: !sout
+            | Some (st', RPanic) ->
+              s := None; sout := "panic" :: !sout
             | Some (st', r') ->
               s := Some st';
               (* SPEC: the caller's axes slice is left as it was passed *)
@@ -260,7 +276,7 @@ let run_prog dt (prog : string) (impl : string) : outcome =
                   | Some g -> g f | None -> operand_ids o in
                 let gn = gname (zguard before op) in
                 let gn = if gn = "other" then "L" ^ String.concat "," (List.map (layout_tag before) ids) else gn in
-                cls := f.(0) ^ (if Array.length f > 1 && (f.(0) = "bin" || f.(0) = "bins" || f.(0) = "cmp" || f.(0) = "cmps" || f.(0) = "un" || f.(0) = "reduce" || f.(0) = "arg") then "." ^ f.(1) else "") ^ ":" ^ gn
+                cls := f.(0) ^ (if Array.length f > 1 && (f.(0) = "bin" || f.(0) = "bins" || f.(0) = "cmp" || f.(0) = "cmps" || f.(0) = "un" || f.(0) = "reduce" || f.(0) = "arg" || f.(0) = "lin") then "." ^ f.(1) else "") ^ ":" ^ gn
                        ^ ":" ^ symptom (strip_model_only mstr) sstr;
                 (* after a divergence the two states are no longer related *)
                 s := None
